@@ -32,7 +32,8 @@ ASSUMPTIONS = [
 ]
 DEFECTS = ["short", "long", "gaps_u", "gaps_t", "month_t", "neg_gas", "poor", "very_short", "small_group"]
 # first weekends of a season (default maps): the span ends on the Saturday (1 weekend day in the new season), the Sunday (2) or a week later (3-4)
-SEASON_WEEKENDS = ["2018-03-03", "2018-06-02", "2018-10-06", "2018-11-03", "2019-03-02", "2019-06-01"]
+SEASON_WEEKENDS = ["2018-06-02", "2018-11-03", "2019-06-01", "2017-11-04"]  # first Saturdays of summer / winter
+SEASON_LAST_WEEKENDS = ["2018-02-24", "2018-09-29", "2019-02-23", "2017-09-30"]  # last Saturdays of winter / summer
 OTHER_TZ = {"America/Chicago": "Europe/London", "UTC": "America/Chicago"}
 
 
@@ -50,6 +51,9 @@ def cases(draw, family=None):
     if family == "daily_current" and draw(st.booleans()):
         c["defects"] = sorted(set(c["defects"] + ["small_group"]) - {"very_short", "long"})
     c["group_end"] = [draw(st.sampled_from(SEASON_WEEKENDS)), draw(st.sampled_from([0, 1, 1, 7]))]
+    c["group_start"] = [draw(st.sampled_from(SEASON_LAST_WEEKENDS)), draw(st.sampled_from([0, -1, -5, -5, -8]))]
+    c["group_mode"] = draw(st.sampled_from(["end", "start"]))
+    c["group_n"] = draw(st.integers(125, 225))
     c["ign_fit"] = draw(st.booleans())
     c["ign_pred"] = draw(st.booleans())
     c["stored"] = draw(st.booleans())
@@ -69,10 +73,15 @@ def defective_frame(c):
     elif "long" in d:
         b["n"] = 400
     if "small_group" in d and fam != "hourly":
-        # the last (season, weekend) group has 1, 2 or 3-4 days
-        end = pd.Timestamp(c["group_end"][0]) + pd.Timedelta(days=c["group_end"][1])
-        b["n"] = min(b["n"], 300)
-        b["start_day"] = (end - pd.Timestamp("2017-01-01")).days - b["n"] + 1
+        # one (season, weekend) group has 1, 2 or 3-4 days: the span (shorter than a year, so the season occurs once) ends on
+        # the first weekend of summer/winter, or starts just before the last weekend of winter/summer
+        b["n"] = c["group_n"]
+        if c["group_mode"] == "end":
+            end = pd.Timestamp(c["group_end"][0]) + pd.Timedelta(days=c["group_end"][1])
+            b["start_day"] = (end - pd.Timestamp("2017-01-01")).days - b["n"] + 1
+        else:
+            start = pd.Timestamp(c["group_start"][0]) + pd.Timedelta(days=c["group_start"][1])
+            b["start_day"] = (start - pd.Timestamp("2017-01-01")).days
     df = zoo.raw_frame(b)
     rng = np.random.default_rng(b["noise_seed"] + 17)
     n = len(df)
